@@ -1,4 +1,5 @@
 import Svgbob.Proofs.Scale
+import Svgbob.Model.Convert
 /-!
 # C11 — the scale setting scales every length and nothing else
 
@@ -73,6 +74,20 @@ theorem scale_commutes (len : List Char → Nat) (cfg : Cfg) (a b : Nat)
   cases cfg.includeStyles <;> cases cfg.includeDefs <;> cases cfg.includeBackdrop <;>
     simp [styleNode_mulNum, defsNode_mulNum, Node.mulNum, Node.mulNumList, AttrVal.mulNum,
       List.map_map]
+
+/-- **the whole conversion** (`Model/Convert.convertDoc`, the function the driver serializes for the
+byte-level correspondence): front end and endorsement stage do not see the scale at all, so for every
+text, environment and catalogue the document at scale `(n·a)/(d·b)` is the document at scale `n/d`
+with every scaled number multiplied by `a` over a denominator multiplied by `b` -/
+theorem whole_conversion_scales (env : Env) (cfg : Cfg) (cat : Catalogue) (a b : Nat)
+    (hov : cfg.overrideSize = none) (input : List Char) :
+    convertDoc env (rescale cfg a b) cat input =
+      (convertDoc env cfg cat input).map (Node.mulNum a) := by
+  unfold convertDoc
+  simp only
+  cases endorseAll (segColumns env) cat (front env input).cells (front env input).escaped with
+  | none => rfl
+  | some r => simp only [Option.map_some, scale_commutes _ cfg a b hov]
 
 def cfg8 : Cfg :=
   { scaleN := 8, scaleD := 1, includeBackdrop := true, includeStyles := true, includeDefs := true,
